@@ -24,3 +24,7 @@ Definition k_names (reserved wanted : list string) : list Z :=
   | None => [0]
   | Some (out, _) => 1 :: flat_map (fun s => codes s ++ [-1]) out
   end.
+
+(* a batch of sequences; answers separated by -2 *)
+Definition k_names_batch (items : list (list string * list string)) : list Z :=
+  flat_map (fun rw => k_names (fst rw) (snd rw) ++ [-2]) items.
